@@ -506,8 +506,8 @@ func c20Unit(c *RunCtx, unit int) {
 			defer wg.Done()
 			for i := 0; i < 150; i++ {
 				prog := c11gen(gr)
-				l, gets, pan := c11run(prog, c11state{"uid": "u"}, c11state{"rm": "c"})
-				if sig, msg := c11check(prog, l, gets, c11state{"uid": "u"}, c11state{"rm": "c"}, pan); sig != "" {
+				l, gets, pan := c11run(prog, c11state{"uid": "u"}, c11state{"rm": "c"}, false, false)
+				if sig, msg := c11check(prog, l, gets, c11state{"uid": "u"}, c11state{"rm": "c"}, pan, false, false); sig != "" {
 					select {
 					case bad <- sig + ": " + msg:
 					default:
